@@ -209,7 +209,8 @@ def expected_dump(items):
         if it["kind"] == "union":
             out.append("union %s c=%s op=%d" % (hx(it["name"]), cm(it), opcode_value(it)))
             for b in sorted(it["branches"], key=lambda b: b["disc"]):
-                out.append(" idx %d dm=%s d=%s []" % (b["disc"], hx(b.get("dep") or ""), "true" if b.get("dep") is not None else "false"))
+                btags = ",".join("%s:%s:%s" % (hx(k), hx(v), "true" if bl else "false") for k, v, bl, _ in b.get("tags", []))
+                out.append(" idx %d dm=%s d=%s [%s]" % (b["disc"], hx(b.get("dep") or ""), "true" if b.get("dep") is not None else "false", btags))
                 if b["def"]["kind"] == "message":
                     message("  ", b["def"])
                 else:
@@ -421,6 +422,20 @@ class AstGen:
                 f["comment"] = None
                 f.pop("tags", None)
             b = {"disc": d, "def": bd}
+            if self.comments and r.below(4) == 0:
+                # tags of a union member: comment lines of the fixed shape before it; they stay part of the member's doc comment
+                tags = []
+                for _ in range(1 + r.below(2)):
+                    if r.below(3) == 0:
+                        key = r.choice(["omitempty", "flag"])
+                        tags.append((key, "", True, "[tag(%s)]" % key))
+                    else:
+                        key = r.choice(["json", "db"])
+                        val = r.choice(["name", "a,omitempty", "b%d" % self.n])
+                        tags.append((key, val, False, '[tag(%s:"%s")]' % (key, val)))
+                b["tags"] = tags
+                lines = ([bd["comment"]] if bd["comment"] is not None else []) + [t[3] for t in tags]
+                bd["comment"] = "\n".join(lines)
             if r.below(6) == 0:
                 b["dep"] = "old branch"
             it["branches"].append(b)
